@@ -18,6 +18,7 @@ TRUSTED = ("CPython ast", "list model of np.arange/argwhere/ravel/max")
 TECHNIQUE = "static analysis: key-domain (dead guard) propagation, def-use of the level cap, finite-case folding"
 
 from . import loader_folds as lfold
+from . import layout_folds as lay
 
 
 def r1_r2(run, tree):
@@ -27,8 +28,8 @@ def r1_r2(run, tree):
 
 
 def r2_leaf(run, tree):
-    run.rule("C12.R2", "cells at the cap level are leaves", "D7", "", floor=5)
-    io2.check_leaf_rule(run, tree)
+    run.rule("C12.R2", "cells at the cap level are leaves", "D7", "", floor=3)
+    lay.check_leaf_rule(run, tree)
 
 
 def r3(run, tree):
